@@ -64,6 +64,10 @@ func genClientCloseCase(t *rapid.T) HostileCase {
 		Proto:  rapid.SampledFrom([]string{"auto", "tcp", "tcp", "udp"}).Draw(t, "proto"),
 		Medias: rapid.IntRange(1, 2).Draw(t, "medias"),
 	}
+	if c.Proto != "tcp" {
+		// a UDP client whose first RTCP port is taken by somebody else just when it binds it
+		c.OddPortBusy = rapid.IntRange(0, 2).Draw(t, "odd_port_busy") == 0
+	}
 	var steps []CliOp
 	var methods []string
 	if rapid.IntRange(0, 3).Draw(t, "record") == 0 {
